@@ -86,14 +86,65 @@ theorem graph_notProd (np : Nat) (adj : Nat → Nat → Bool) (hirr : ∀ i, adj
   · rw [← (hS p hp).1, hX p hp]; exact hSp
   · rw [← (hS p hp).2, hZ p hp, hSp]; rfl
 
-/-- **the loop invariant holds at the start of the loop** -/
-theorem rinv_init (target : STab) (hg : target.Good) (hi : target.LinIndep) (ne : Nat)
-    (hdet : determineNEmitters target = .ok ne) (hnp : ∀ p, p < target.n → target.NotProd p) :
-    RInv target.n ne target.n { np := target.n, ne := ne, t := withEmitters target ne, circ := [] } := by
+/-- appending emitters in |0⟩ keeps the column of an isolated photon -/
+theorem litX_withEmitters (target : STab) (ne p : Nat) (hp : p < target.n) (h : target.LitX p) :
+    (withEmitters target ne).LitX p := by
+  have hN : (withEmitters target ne).n = target.n + ne := withEmitters_n target ne
+  obtain ⟨w, hw, hrow, hoth⟩ := h
+  refine ⟨w, by rw [hN]; omega, ?_, ?_⟩
+  · intro j hj
+    rw [hN] at hj
+    obtain ⟨e1, e2⟩ := (withEmitters_row target ne w (by omega)).1 j hj
+    rw [e1, e2]
+    by_cases hjn : j < target.n
+    · obtain ⟨b1, b2⟩ := hrow j hjn
+      simp [extRow, hw, PRow.truncCols, hjn, b1, b2]
+    · have : ¬ j = p := by omega
+      simp [extRow, hw, PRow.truncCols, hjn, Xq, this]
+  · intro k hk hkw
+    rw [hN] at hk
+    obtain ⟨e1, e2⟩ := (withEmitters_row target ne k hk).1 p (by omega)
+    apply PRow.pt_of_bits
+    · rw [e1]
+      by_cases hkn : k < target.n
+      · have := PRow.pt_zero_bits _ _ (hoth k hkn hkw)
+        simp [extRow, hkn, PRow.truncCols, hp, this.1]
+      · simp [extRow, hkn, Zq]
+    · rw [e2]
+      by_cases hkn : k < target.n
+      · have := PRow.pt_zero_bits _ _ (hoth k hkn hkw)
+        simp [extRow, hkn, PRow.truncCols, hp, this.2]
+      · have : ¬ p = k := by omega
+        simp [extRow, hkn, Zq, this]
+
+/-- **an isolated vertex of a graph state is the product qubit `X_p`**, alone in its column -/
+theorem graph_litX (np : Nat) (adj : Nat → Nat → Bool) (hsym : ∀ i j, adj i j = adj j i) (p : Nat) (hp : p < np)
+    (hiso : ∀ j, j < np → adj p j = false) : (graphSTab np adj).LitX p := by
+  refine ⟨p, hp, ?_, ?_⟩
+  · intro j hj
+    have hj' : j < np := hj
+    refine ⟨rfl, ?_⟩
+    show (decide (j < np) && adj p j) = false
+    rw [hiso j hj']; simp
+  · intro k hk hkp
+    have hk' : k < np := hk
+    apply PRow.pt_of_bits
+    · show decide (p = k) = false
+      have : ¬ p = k := fun e => hkp e.symm
+      simp [this]
+    · show (decide (p < np) && adj k p) = false
+      rw [hsym k p, hiso k hk']; simp
+
+/-- **the loop invariant holds at the start of the loop**; `I` = the isolated photons (product qubits `X_p`) -/
+theorem rinv_init (I : Nat → Prop) (target : STab) (hg : target.Good) (hi : target.LinIndep) (ne : Nat)
+    (hdet : determineNEmitters target = .ok ne) (hnp : ∀ p, p < target.n → ¬ I p → target.NotProd p)
+    (hx : ∀ p, p < target.n → I p → target.LitX p) :
+    RInv I target.n ne target.n { np := target.n, ne := ne, t := withEmitters target ne, circ := [] } := by
   obtain ⟨g0, n0⟩ := withEmitters_good target hg ne
-  refine ⟨Nat.le_refl _, rfl, rfl, n0, g0, indep_withEmitters target hi ne, ?_, ?_, ?_⟩
+  refine ⟨Nat.le_refl _, rfl, rfl, n0, g0, indep_withEmitters target hi ne, ?_, ?_, ?_, ?_⟩
   · intro q h1 h2; omega
-  · intro p hp; exact notProd_withEmitters target ne p hp (hnp p hp)
+  · intro p hp hI; exact notProd_withEmitters target ne p hp (hnp p hp hI)
+  · intro p hp hI; exact litX_withEmitters target ne p hp (hx p hp hI)
   · intro k hk; exact cutRank_withEmitters target ne hdet k (by omega)
 
 end Graphiq.Solver
